@@ -2,5 +2,5 @@
 Require Extraction.
 Require Import ExtrOcamlBasic.
 From LLB Require Import Base.Bytes Codec.Codec Codec.FileObs BSys.DirTree.
-Extraction "extracted/Model_dirtree.ml" observe rebuild clean_build prune excluded filtered_listing
-  tree_toks struct_toks s_children names nonempty eff sort_by.
+Extraction "extracted/Model_dirtree.ml" observe observe_unrepaired rebuild clean_build prune excluded filtered_listing
+  tree_toks struct_toks struct_toks_unrepaired s_children names nonempty eff sort_by.
